@@ -9,7 +9,7 @@ I(n) == [t |-> "int", v |-> n]
 Sy(cs) == [t |-> "sym", cs |-> cs]
 Atoms == {[t |-> "bool", b |-> TRUE], [t |-> "bool", b |-> FALSE], I(0), I(-7), I(2147483647), I(-2147483647 - 1),
           [t |-> "rat", n |-> 1, d |-> 2], [t |-> "rat", n |-> -3, d |-> 4], [t |-> "rat", n |-> -2147483647 - 1, d |-> 3],
-          [t |-> "rat", n |-> 2147483647, d |-> 2147483646], [t |-> "char", c |-> 97], [t |-> "char", c |-> 40],
+          [t |-> "rat", n |-> 2147483647, d |-> 2147483646], [t |-> "char", c |-> 97], [t |-> "char", c |-> 40], [t |-> "char", c |-> 32],
           Sy(<<97>>), Sy(<<43>>), Sy(<<45, 62, 120>>), QuoteSym, [t |-> "nil"], [t |-> "vec", xs |-> <<>>]}
 \* the symbol quote is an element like any other: (quote), (quote a b), (quote . a), (a quote b) are lists, not abbreviations
 FewAtoms == {[t |-> "bool", b |-> FALSE], I(-7), [t |-> "rat", n |-> 1, d |-> 2], QuoteSym, [t |-> "nil"]}
